@@ -1964,3 +1964,388 @@ Proof.
       rewrite forallb_forall in Ef. rewrite (Ef _ Hin) in Hc. discriminate.
 Qed.
 End RunRefines.
+
+(* ------------------------------------------------------------------------------------- *)
+(* split, stage 1: the loop over the buffer refines the same loop over the abstract cursor   *)
+(* ------------------------------------------------------------------------------------- *)
+Fixpoint spec_split_loop (fuel : nat) (s : bspec) (delims : list Z) (flags max_sections : Z)
+         (first : bool) (arr : list (list Z)) : option (bspec * list (list Z)) :=
+  match fuel with
+  | O => None
+  | S f =>
+    if spec_len s =? 0 then Some (s, arr)
+    else
+      let s1 := if first then spec_tag s
+                else if buf_flag flags ARES_BUF_SPLIT_KEEP_DELIMS then snd (spec_consume (spec_tag s) 1)
+                     else spec_tag (snd (spec_consume s 1)) in
+      let s2 := if spec_split_full max_sections arr then snd (spec_consume s1 (spec_len s1))
+                else snd (spec_until_charset s1 delims false) in
+      spec_split_loop f s2 delims flags max_sections false (spec_split_emit flags arr (rev (spec_tagged s2)))
+  end.
+
+Lemma spec_split_emit_eq flags arr sect :
+  spec_split_emit flags arr (rev sect) =
+  let sect := if buf_flag flags ARES_BUF_SPLIT_LTRIM then buf_ltrim sect else sect in
+  let sect := if buf_flag flags ARES_BUF_SPLIT_RTRIM then buf_rtrim sect else sect in
+  if negb (buf_zlen sect =? 0) || buf_flag flags ARES_BUF_SPLIT_ALLOW_BLANK
+  then if negb (buf_flag flags ARES_BUF_SPLIT_NO_DUPLICATES) || negb (buf_split_isdup arr sect flags)
+       then arr ++ [sect] else arr
+  else arr.
+Proof. unfold spec_split_emit. rewrite rev_involutive. reflexivity. Qed.
+
+Lemma buf_split_loop_refines delims flags max_sections :
+  forall fuel b first arr, buf_inv b ->
+  match spec_split_loop fuel (buf_abs b) delims flags max_sections first arr with
+  | None => True
+  | Some (s', pieces) =>
+    exists b', buf_split_loop fuel (fun _ => true) b delims flags max_sections first arr = Ok (ARES_SUCCESS, b', pieces) /\
+               buf_inv b' /\ b_mem b' = b_mem b /\ buf_abs b' = s'
+  end.
+Proof.
+  induction fuel as [|f IH]; intros b first arr Hi; [exact I|].
+  cbn [spec_split_loop buf_split_loop].
+  rewrite buf_len_refines by exact Hi. cbn [bind].
+  destruct (Z.eqb_spec (spec_len (buf_abs b)) 0) as [Hz | Hnz].
+  { exists b. auto. }
+  (* after tagging / eating the delimiter *)
+  assert (exists b1, (if first then buf_tag b
+                      else if buf_flag flags ARES_BUF_SPLIT_KEEP_DELIMS
+                           then do t <- buf_tag b; do r <- buf_consume t 1; Ok (snd r)
+                           else do r <- buf_consume b 1; buf_tag (snd r)) = Ok b1 /\
+                     buf_inv b1 /\ b_mem b1 = b_mem b /\
+                     buf_abs b1 = (if first then spec_tag (buf_abs b)
+                                   else if buf_flag flags ARES_BUF_SPLIT_KEEP_DELIMS
+                                        then snd (spec_consume (spec_tag (buf_abs b)) 1)
+                                        else spec_tag (snd (spec_consume (buf_abs b) 1)))) as (b1 & He1 & Hi1 & Hm1 & Ha1).
+  { destruct first.
+    - destruct (buf_tag_refines b Hi) as (b1 & He & Hi1 & Ha). exists b1.
+      split; [exact He|]. split; [exact Hi1|]. split; [injection He as <-; reflexivity | exact Ha].
+    - destruct (buf_flag flags ARES_BUF_SPLIT_KEEP_DELIMS).
+      + destruct (buf_tag_refines b Hi) as (t & He & Hit & Hat). rewrite He. cbn [bind].
+        destruct (buf_consume_refines t 1 Hit) as (st & b1 & Hc & Hi1 & Hs); [lia|]. rewrite Hc. cbn [bind snd].
+        exists b1. split; [reflexivity|]. split; [exact Hi1|]. split.
+        * injection He as <-. rewrite buf_consume_ok in Hc by (try exact Hit; lia).
+          destruct (b_dlen (buf_with_tag b (b_off b)) - b_off (buf_with_tag b (b_off b)) <? 1); injection Hc as _ <-; reflexivity.
+        * rewrite <- Hat, <- Hs. reflexivity.
+      + destruct (buf_consume_refines b 1 Hi) as (st & c & Hc & Hic & Hs); [lia|]. rewrite Hc. cbn [bind snd].
+        destruct (buf_tag_refines c Hic) as (b1 & He & Hi1 & Ha). exists b1. split; [exact He|]. split; [exact Hi1|]. split.
+        * injection He as <-. rewrite buf_consume_ok in Hc by (try exact Hi; lia).
+          destruct (b_dlen b - b_off b <? 1); injection Hc as _ <-; reflexivity.
+        * rewrite Ha, <- Hs. reflexivity. }
+  rewrite He1. cbn [bind].
+  (* the section *)
+  assert (exists b2, (if negb (max_sections =? 0) && (buf_zlen arr >=? buf_w64 (max_sections - 1))
+                      then do l1 <- buf_len b1; do r <- buf_consume b1 l1; Ok (snd r)
+                      else do r <- buf_consume_until_charset b1 delims false; Ok (snd r)) = Ok b2 /\
+                     buf_inv b2 /\ b_mem b2 = b_mem b1 /\
+                     buf_abs b2 = (if spec_split_full max_sections arr then snd (spec_consume (buf_abs b1) (spec_len (buf_abs b1)))
+                                   else snd (spec_until_charset (buf_abs b1) delims false))) as (b2 & He2 & Hi2 & Hm2 & Ha2).
+  { unfold spec_split_full.
+    destruct (negb (max_sections =? 0) && (buf_zlen arr >=? buf_w64 (max_sections - 1))).
+    - rewrite buf_len_refines by exact Hi1. cbn [bind].
+      destruct (buf_consume_refines b1 (spec_len (buf_abs b1)) Hi1) as (st & b2 & Hc & Hi2 & Hs).
+      { unfold spec_len. apply buf_zlen_nonneg. }
+      rewrite Hc. cbn [bind snd]. exists b2. split; [reflexivity|]. split; [exact Hi2|]. split.
+      + rewrite buf_consume_ok in Hc by (try exact Hi1; unfold spec_len; apply buf_zlen_nonneg).
+        destruct (b_dlen b1 - b_off b1 <? spec_len (buf_abs b1)); injection Hc as _ <-; reflexivity.
+      + rewrite <- Hs. reflexivity.
+    - destruct (buf_consume_until_charset_refines b1 delims false Hi1) as (i & b2 & Hc & Hi2 & Hm & Hs).
+      rewrite Hc. cbn [bind snd]. exists b2. split; [reflexivity|]. split; [exact Hi2|]. split; [exact Hm|].
+      rewrite <- Hs. reflexivity. }
+  rewrite He2. cbn [bind].
+  (* the tag is set and the buffer holds data: the section is the tagged region *)
+  assert (b_tag b2 <> BUF_SIZE_MAX /\ b_hasdata b2 = true) as [Htag2 Hd2].
+  { assert (s_tag (buf_abs b2) <> None) as Hsome.
+    { rewrite Ha2, Ha1. unfold spec_until_charset, spec_consume, spec_consume_ret.
+      repeat match goal with |- context [if ?c then _ else _] => destruct c end; cbn [snd spec_tag spec_advance s_tag]; discriminate. }
+    split.
+    - intros He. apply Hsome. cbn [buf_abs s_tag]. rewrite He, Z.eqb_refl. reflexivity.
+    - destruct (b_hasdata b2) eqn:Hd; [reflexivity|]. exfalso.
+      assert (b_mem b2 = []) as Hmem.
+      { destruct Hi2 as (_ & _ & [Hs | [Hs | Hs]]); [destruct Hs as (_ & _ & Hm0 & _); exact Hm0 | destruct Hs as (Hd' & _); congruence | destruct Hs as (Hd' & _); congruence]. }
+      rewrite Hm2, Hm1 in Hmem. apply Hnz. unfold spec_len. rewrite buf_abs_post.
+      unfold buf_remaining, buf_data. rewrite Hmem. unfold buf_take, buf_drop. rewrite firstn_nil, skipn_nil. reflexivity. }
+  unfold buf_tag_fetch. replace (b_tag b2 =? BUF_SIZE_MAX) with false by (symmetry; apply Z.eqb_neq; exact Htag2).
+  rewrite Hd2. cbn [orb negb].
+  destruct (buf_tagged_read b2 Hi2 Htag2) as (_ & Hz2 & Hr2).
+  pose proof (buf_inv_tag_ne b2 Hi2 Htag2) as Ht2. pose proof (buf_inv_mem_len b2 Hi2) as [_ Hl2].
+  rewrite buf_w64_small by (destruct Hi2 as (Ho2 & _); buf_consts; lia).
+  rewrite Hr2. cbn [bind].
+  rewrite spec_split_emit_eq. cbn zeta.
+  specialize (IH b2 false (spec_split_emit flags arr (rev (spec_tagged (buf_abs b2)))) Hi2).
+  rewrite Ha2, Ha1 in IH. rewrite Ha2, Ha1.
+  rewrite spec_split_emit_eq in IH. cbn zeta in IH.
+  match type of IH with
+  | match ?X with _ => _ end => destruct X as [[s' pieces]|] eqn:Eloop; [|exact I]
+  end.
+  destruct IH as (b' & Hloop & Hi' & Hm' & Ha').
+  exists b'. split; [|split; [exact Hi' | split; [rewrite Hm', Hm2, Hm1; reflexivity | exact Ha']]].
+  rewrite <- Hloop. rewrite <- Ha1, <- Ha2.
+  set (sect0 := spec_tagged (buf_abs b2)).
+  set (sect1 := if buf_flag flags ARES_BUF_SPLIT_LTRIM then buf_ltrim sect0 else sect0).
+  set (sect2 := if buf_flag flags ARES_BUF_SPLIT_RTRIM then buf_rtrim sect1 else sect1).
+  destruct (negb (buf_zlen sect2 =? 0) || buf_flag flags ARES_BUF_SPLIT_ALLOW_BLANK); [|reflexivity].
+  destruct (negb (buf_flag flags ARES_BUF_SPLIT_NO_DUPLICATES) || negb (buf_split_isdup arr sect2 flags)); reflexivity.
+Qed.
+
+(* ------------------------------------------------------------------------------------- *)
+(* split, stage 2: the loop over the abstract cursor computes the byte-by-byte machine       *)
+(* ------------------------------------------------------------------------------------- *)
+Lemma buf_take_succ {A} k (x : A) r : 0 <= k -> buf_take (1 + k) (x :: r) = x :: buf_take k r.
+Proof. intros Hk. unfold buf_take. replace (Z.to_nat (1 + k)) with (S (Z.to_nat k)) by lia. reflexivity. Qed.
+Lemma buf_drop_succ {A} k (x : A) r : 0 <= k -> buf_drop (1 + k) (x :: r) = buf_drop k r.
+Proof. intros Hk. unfold buf_drop. replace (Z.to_nat (1 + k)) with (S (Z.to_nat k)) by lia. reflexivity. Qed.
+
+Section SplitMachine.
+Variables (delims : list Z) (flags max_sections : Z).
+Notation go := (spec_split_go delims flags max_sections).
+Notation emit := (spec_split_emit flags).
+Notation full := (spec_split_full max_sections).
+Notation keep := (buf_flag flags ARES_BUF_SPLIT_KEEP_DELIMS).
+Notation nondelim := (fun c => negb (buf_in_charset delims c)).
+
+Lemma spec_split_go_all acc cur pos start l :
+  go acc cur true pos start l = (emit acc (rev l ++ cur), start).
+Proof.
+  revert cur pos. induction l as [|x r IH]; intros cur pos; cbn [spec_split_go]; [reflexivity|].
+  cbn [negb andb]. rewrite IH. cbn [rev]. rewrite <- app_assoc. reflexivity.
+Qed.
+
+Lemma spec_split_go_span acc cur pos start l :
+  go acc cur false pos start l =
+  go acc (rev (buf_take (buf_span nondelim l) l) ++ cur) false (pos + buf_span nondelim l) start
+     (buf_drop (buf_span nondelim l) l).
+Proof.
+  revert cur pos. induction l as [|x r IH]; intros cur pos.
+  - cbn [buf_span]. rewrite Z.add_0_r. reflexivity.
+  - cbn [buf_span]. destruct (buf_in_charset delims x) eqn:Ex; cbn [negb].
+    + rewrite buf_take_0, buf_drop_0 by lia. rewrite Z.add_0_r. reflexivity.
+    + pose proof (buf_span_bounds nondelim r) as Hb.
+      rewrite buf_take_succ, buf_drop_succ by lia.
+      cbn [spec_split_go]. rewrite Ex. cbn [negb andb]. rewrite IH. cbn [rev].
+      rewrite <- app_assoc. cbn [app]. f_equal. lia.
+Qed.
+
+Lemma buf_drop_span_head p l y r : buf_drop (buf_span p l) l = y :: r -> p y = false.
+Proof.
+  induction l as [|x l IH]; cbn [buf_span].
+  - unfold buf_drop. rewrite skipn_nil. discriminate.
+  - destruct (p x) eqn:Ex.
+    + pose proof (buf_span_bounds p l) as Hb. rewrite buf_drop_succ by lia. exact IH.
+    + rewrite buf_drop_0 by lia. intros H. injection H as <- _. exact Ex.
+Qed.
+
+Lemma spec_split_go_shift k acc cur all pos start l :
+  go acc cur all (pos + k) (start + k) l =
+  (fst (go acc cur all pos start l), snd (go acc cur all pos start l) + k).
+Proof.
+  revert acc cur all pos start. induction l as [|x r IH]; intros acc cur all pos start; cbn [spec_split_go].
+  - reflexivity.
+  - destruct (negb all && buf_in_charset delims x).
+    + destruct keep.
+      * replace (pos + k + 1) with (pos + 1 + k) by lia. apply IH.
+      * replace (pos + k + 1) with (pos + 1 + k) by lia. apply IH.
+    + replace (pos + k + 1) with (pos + 1 + k) by lia. apply IH.
+Qed.
+
+(* closed form of the cursor after collecting one section *)
+Lemma spec_section_state pre1 body T c arr : 0 < buf_zlen delims ->
+  let s1 := mkSpec pre1 body (Some T) c in
+  let n := if full arr then buf_zlen body else buf_span nondelim body in
+  (if full arr then snd (spec_consume s1 (spec_len s1)) else snd (spec_until_charset s1 delims false))
+  = mkSpec (pre1 ++ buf_take n body) (buf_drop n body) (Some T) c.
+Proof.
+  intros Hd s1 n. unfold n. destruct (full arr).
+  - unfold spec_consume, spec_len, s1. cbn [s_post]. rewrite Z.ltb_irrefl. cbn [snd]. reflexivity.
+  - unfold spec_until_charset, spec_len, s1. cbn [s_post].
+    replace (buf_zlen delims =? 0) with false by (symmetry; apply Z.eqb_neq; lia). rewrite orb_false_r.
+    destruct (Z.eqb_spec (buf_zlen body) 0) as [Hz | Hnz].
+    + apply buf_zlen_0 in Hz. subst body. cbn [snd buf_span]. rewrite buf_take_0, buf_drop_0 by lia.
+      rewrite app_nil_r. reflexivity.
+    + cbn [andb]. unfold spec_consume_ret.
+      destruct (Z.gtb_spec (buf_span nondelim body) 0) as [Hgt | Hle]; cbn [snd].
+      * reflexivity.
+      * pose proof (buf_span_bounds nondelim body) as Hb.
+        replace (buf_span nondelim body) with 0 by lia.
+        rewrite buf_take_0, buf_drop_0 by lia. rewrite app_nil_r. reflexivity.
+Qed.
+
+Lemma spec_split_loop_machine : 0 < buf_zlen delims ->
+  forall fuel pre post tag c (first : bool) arr,
+  buf_zlen post + (if first then 1 else 0) < Z.of_nat fuel ->
+  (first = false -> match post with [] => True | x :: _ => buf_in_charset delims x = true end) ->
+  spec_split_loop fuel (mkSpec pre post tag c) delims flags max_sections first arr =
+  Some (match post with
+        | [] => (mkSpec pre post tag c, arr)
+        | x :: r =>
+          let R := if first then go arr [] (full arr) 0 0 post
+                   else go arr (if keep then [x] else []) (full arr) 1 (if keep then 0 else 1) r in
+          (mkSpec (pre ++ post) [] (Some (buf_zlen pre + snd R)) c, fst R)
+        end).
+Proof.
+  intros Hd. induction fuel as [|f IH]; intros pre post tag c first arr Hfuel Hhead.
+  { pose proof (buf_zlen_nonneg post). destruct first; lia. }
+  cbn [spec_split_loop]. unfold spec_len at 1. cbn [s_post].
+  destruct post as [|x r].
+  { reflexivity. }
+  rewrite buf_zlen_cons in *. pose proof (buf_zlen_nonneg r) as Hrn.
+  replace (1 + buf_zlen r =? 0) with false by (symmetry; apply Z.eqb_neq; lia).
+  (* the three ways of starting a section: (pre1, body, T, cur0, p0) *)
+  set (pre1 := if first then pre else pre ++ [x]).
+  set (body := if first then x :: r else r).
+  set (T := if first then buf_zlen pre else if keep then buf_zlen pre else buf_zlen pre + 1).
+  set (hd := if first then [] else if keep then [x] else @nil Z).
+  set (p0 := if first then 0 else 1).
+  assert ((if first then spec_tag (mkSpec pre (x :: r) tag c)
+           else if keep then snd (spec_consume (spec_tag (mkSpec pre (x :: r) tag c)) 1)
+                else spec_tag (snd (spec_consume (mkSpec pre (x :: r) tag c) 1)))
+          = mkSpec pre1 body (Some T) c) as Hs1.
+  { unfold pre1, body, T. destruct first; [reflexivity|].
+    assert (forall tg, spec_consume (mkSpec pre (x :: r) tg c) 1 = (ARES_SUCCESS, mkSpec (pre ++ [x]) r tg c)) as Hc1.
+    { intros tg. unfold spec_consume, spec_len. cbn [s_post]. rewrite buf_zlen_cons.
+      replace (1 + buf_zlen r <? 1) with false by (symmetry; apply Z.ltb_ge; lia). reflexivity. }
+    destruct keep.
+    - unfold spec_tag. cbn [s_pre s_post s_const]. rewrite Hc1. reflexivity.
+    - rewrite Hc1. cbn [snd]. unfold spec_tag, spec_position. cbn [s_pre s_post s_const].
+      rewrite buf_zlen_app. reflexivity. }
+  rewrite Hs1.
+  pose proof (spec_section_state pre1 body T c arr Hd) as Hs2. cbn zeta in Hs2. rewrite Hs2. clear Hs2.
+  set (n := if full arr then buf_zlen body else buf_span nondelim body).
+  assert (0 <= n <= buf_zlen body) as Hn.
+  { unfold n. destruct (full arr); [pose proof (buf_zlen_nonneg body); lia | apply buf_span_bounds]. }
+  assert (buf_zlen body <= buf_zlen r + 1) as Hbl.
+  { unfold body. destruct first; [rewrite buf_zlen_cons|]; lia. }
+  assert (buf_zlen pre1 = buf_zlen pre + p0) as Hp1.
+  { unfold pre1, p0. destruct first; [lia|]. rewrite buf_zlen_app. reflexivity. }
+  (* the tagged region of the section = hd ++ the collected bytes *)
+  assert (spec_tagged (mkSpec (pre1 ++ buf_take n body) (buf_drop n body) (Some T) c) = hd ++ buf_take n body) as Htg.
+  { unfold spec_tagged. cbn [s_tag s_pre]. unfold pre1, T, hd. destruct first.
+    - rewrite buf_drop_app_exact by reflexivity. reflexivity.
+    - destruct keep.
+      + rewrite <- app_assoc. rewrite buf_drop_app_exact by reflexivity. reflexivity.
+      + rewrite buf_drop_app_exact by (rewrite buf_zlen_app; reflexivity). reflexivity. }
+  rewrite Htg.
+  (* recursive call *)
+  rewrite IH.
+  2:{ rewrite buf_drop_zlen by lia. unfold body in *. rewrite Nat2Z.inj_succ in Hfuel. destruct first; [rewrite buf_zlen_cons in *|]; lia. }
+  2:{ intros _. unfold n. destruct (full arr).
+      - rewrite buf_drop_all by lia. exact I.
+      - destruct (buf_drop (buf_span nondelim body) body) as [|y r2] eqn:Ed; [exact I|].
+        apply buf_drop_span_head in Ed. apply negb_false_iff in Ed. exact Ed. }
+  f_equal.
+  (* what the machine computes for this section *)
+  assert ((if first then go arr [] (full arr) 0 0 (x :: r)
+           else go arr (if keep then [x] else []) (full arr) 1 (if keep then 0 else 1) r)
+          = go arr (rev hd) (full arr) p0 (T - buf_zlen pre) body) as Hgo.
+  { unfold hd, p0, T, body. destruct first; [rewrite Z.sub_diag; reflexivity|].
+    destruct keep; [rewrite Z.sub_diag; reflexivity|]. replace (buf_zlen pre + 1 - buf_zlen pre) with 1 by lia. reflexivity. }
+  cbn zeta. rewrite Hgo. clear Hgo.
+  assert (pre1 ++ body = pre ++ x :: r) as Hall.
+  { unfold pre1, body. destruct first; [reflexivity|]. rewrite <- app_assoc. reflexivity. }
+  unfold n in *. clear n.
+  destruct (full arr) eqn:Efull.
+  - (* max_sections reached: the rest is one section *)
+    rewrite buf_drop_all by lia. rewrite (buf_take_all (buf_zlen body) body) by lia.
+    rewrite spec_split_go_all. cbn [fst snd]. rewrite rev_app_distr.
+    rewrite Hall. f_equal. f_equal. f_equal. lia.
+  - rewrite spec_split_go_span.
+    set (k := buf_span nondelim body) in *.
+    destruct (buf_drop k body) as [|y r2] eqn:Ed.
+    + cbn [spec_split_go fst snd]. rewrite rev_app_distr.
+      assert (buf_take k body = body) as Htk.
+      { rewrite <- (buf_take_drop k body) at 2. rewrite Ed, app_nil_r. reflexivity. }
+      rewrite Htk, Hall. f_equal. f_equal. f_equal. lia.
+    + assert (buf_in_charset delims y = true) as Hy.
+      { apply buf_drop_span_head in Ed. apply negb_false_iff in Ed. exact Ed. }
+      cbn [spec_split_go]. rewrite Hy. cbn [negb andb].
+      rewrite <- rev_app_distr.
+      set (arr' := emit arr (rev (hd ++ buf_take k body))).
+      assert ((pre1 ++ buf_take k body) ++ y :: r2 = pre ++ x :: r) as Hall2.
+      { rewrite <- Hall. rewrite <- app_assoc. rewrite <- Ed. rewrite buf_take_drop. reflexivity. }
+      rewrite Hall2.
+      assert (buf_zlen (buf_take k body) = k) as Hkz by (apply buf_take_zlen; lia).
+      assert (forall cur st0, go arr' cur (full arr') (p0 + k + 1) (st0 + (p0 + k)) r2 =
+                              (fst (go arr' cur (full arr') 1 st0 r2), snd (go arr' cur (full arr') 1 st0 r2) + (p0 + k))) as Hshift.
+      { intros cur st0. replace (p0 + k + 1) with (1 + (p0 + k)) by lia. apply spec_split_go_shift. }
+      destruct keep.
+      * replace (go arr' [y] (full arr') (p0 + k + 1) (p0 + k) r2)
+          with (go arr' [y] (full arr') (p0 + k + 1) (0 + (p0 + k)) r2) by (f_equal; lia).
+        rewrite Hshift. cbn [fst snd].
+        f_equal. f_equal. f_equal. rewrite buf_zlen_app, Hkz, Hp1. lia.
+      * replace (go arr' [] (full arr') (p0 + k + 1) (p0 + k + 1) r2)
+          with (go arr' [] (full arr') (p0 + k + 1) (1 + (p0 + k)) r2) by (f_equal; lia).
+        rewrite Hshift. cbn [fst snd].
+        f_equal. f_equal. f_equal. rewrite buf_zlen_app, Hkz, Hp1. lia.
+Qed.
+End SplitMachine.
+
+(* ares_buf_split: the pieces are exactly what the byte-by-byte reference machine produces
+   from the remaining bytes; afterwards everything is consumed and the tag marks the start of
+   the last section; the 2 + length units of fuel are never exhausted; never UB *)
+Theorem buf_split_refines ok_arr b delims flags max_sections :
+  buf_inv b -> 0 <= flags -> 0 <= max_sections ->
+  exists st b' pieces, buf_split ok_arr (fun _ => true) b delims flags max_sections = Ok (st, b', pieces) /\
+    buf_inv b' /\ b_mem b' = b_mem b /\
+    In (mkObs st [buf_zlen pieces] pieces, buf_abs b') (spec_split_alts ok_arr (buf_abs b) delims flags max_sections).
+Proof.
+  intros Hi _ _. unfold buf_split, spec_split_alts.
+  pose proof (buf_zlen_nonneg delims) as Hdn.
+  destruct (Z.eqb_spec (buf_zlen delims) 0) as [Hd0 | Hdne].
+  { exists ARES_EFORMERR, b, []. split; [reflexivity|]. split; [exact Hi|]. split; [reflexivity|]. left. reflexivity. }
+  destruct ok_arr; cbn [negb].
+  2:{ exists ARES_ENOMEM, b, []. split; [reflexivity|]. split; [exact Hi|]. split; [reflexivity|]. left. reflexivity. }
+  rewrite buf_len_refines by exact Hi. cbn [bind].
+  pose proof (buf_split_loop_refines delims flags max_sections
+                (S (S (Z.to_nat (spec_len (buf_abs b))))) b true [] Hi) as Hloop.
+  destruct (buf_abs b) as [pre post tag c] eqn:Eabs.
+  unfold spec_len in *. cbn [s_post s_pre s_const] in *.
+  pose proof (buf_zlen_nonneg post) as Hpn.
+  rewrite (spec_split_loop_machine delims flags max_sections) in Hloop; [| lia | lia | intros H; discriminate H].
+  destruct post as [|x r].
+  - destruct Hloop as (b' & He & Hi' & Hm & Ha). exists ARES_SUCCESS, b', [].
+    split; [exact He|]. split; [exact Hi'|]. split; [exact Hm|]. rewrite Ha. left. reflexivity.
+  - cbn zeta in Hloop. destruct Hloop as (b' & He & Hi' & Hm & Ha).
+    eexists ARES_SUCCESS, b', _. split; [exact He|]. split; [exact Hi'|]. split; [exact Hm|].
+    rewrite buf_zlen_cons. replace (1 + buf_zlen r =? 0) with false by (symmetry; apply Z.eqb_neq; pose proof (buf_zlen_nonneg r); lia).
+    rewrite Ha. left. reflexivity.
+Qed.
+
+(* ------------------------------------------------------------------------------------- *)
+(* The main theorem: every operation sequence                                              *)
+(* ------------------------------------------------------------------------------------- *)
+Theorem buf_step_refines junk b op : (forall i, 0 <= junk i < 256) ->
+  buf_inv b -> buf_bytes_ok (b_mem b) -> buf_op_ok op -> spec_contract (buf_abs b) op = true ->
+  exists o b', buf_step junk b op = Ok (o, b') /\ buf_inv b' /\ buf_bytes_ok (b_mem b') /\
+               In (o, buf_abs b') (spec_alts (buf_abs b) op).
+Proof.
+  intros Hj. apply (buf_step_refines_gen junk Hj).
+  intros ok_arr b0 delims flags mx H1 H2 H3. apply buf_split_refines; assumption.
+Qed.
+
+Theorem buf_run_refines junk ops : (forall i, 0 <= junk i < 256) -> Forall buf_op_ok ops ->
+  exists tr, buf_run_checked junk buf_empty ops = Ok tr /\ spec_accepts [spec_create] ops tr = true.
+Proof.
+  intros Hj Hops.
+  apply (buf_run_refines_gen junk Hj); [| apply buf_empty_inv | constructor | exact Hops | left; reflexivity].
+  intros ok_arr b0 delims flags mx H1 H2 H3. apply buf_split_refines; assumption.
+Qed.
+
+(* the hypotheses are satisfiable by a non-trivial run (and the run is what one expects) *)
+Example buf_run_example :
+  let ops := [OAppend true [1; 2; 3; 4; 5]; OFetchBytes 2; OTag; OConsume 1; OAppendBe16 true 4660;
+              OReclaim; ORollback; OFetchBe16; OSplit true [18] 0 0; OFinishBin true] in
+  Forall buf_op_ok ops /\
+  match buf_run_checked (fun _ => 0) buf_empty ops with
+  | Ok tr => map (fun x => (o_st (fst x), o_vals (fst x), o_bytes (fst x), v_rem (snd x))) tr =
+             [(0, [], [], [1; 2; 3; 4; 5]); (0, [], [[1; 2]], [3; 4; 5]); (0, [], [], [3; 4; 5]);
+              (0, [], [], [4; 5]); (0, [], [], [4; 5; 18; 52]); (0, [], [], [4; 5; 18; 52]);
+              (0, [], [], [3; 4; 5; 18; 52]); (0, [772], [], [5; 18; 52]);
+              (0, [2], [[5]; [52]], []) ; (1, [], [[52]], [])]
+  | _ => False
+  end.
+Proof.
+  cbn zeta. split.
+  - repeat (apply Forall_cons; [cbn [buf_op_ok]; try exact I; try lia |]); try apply Forall_nil.
+    split; [unfold buf_bytes_ok; repeat constructor; lia | vm_compute; reflexivity].
+  - vm_compute. reflexivity.
+Qed.
